@@ -252,6 +252,43 @@ def run_case(case):
                         continue
                     if judge(ctx, where, rq, pth, src, dst, [(u, hop) for u in inc]):
                         traces += 1
+                # the same two requests declared disjoint from each other: whatever the group does to the routes, a STRICT
+                # list is crossed in order or the computation is refused (DisjunctionError) / the request blocked
+                if 'STRICT' in (ha, hb) and (ia and ib):
+                    from gnpy.core.exceptions import DisjunctionError
+                    from gnpy.tools.json_io import disjunctions_from_json
+                    from gnpy.topology.request import deduplicate_disjunctions
+                    gdoc = rg.service([rg.request('b1', src, dst, include=[(u, ha) for u in ia]),
+                                       rg.request('b2', src, dst, include=[(u, hb) for u in ib])], groups=[['b1', 'b2']])
+                    transitions += 1
+                    try:
+                        rqs = correct_json_route_list(net, requests_from_json(gdoc, equipment))
+                        dsj = deduplicate_disjunctions(disjunctions_from_json(gdoc))
+                        rqs, dsj = requests_aggregation(rqs, dsj)
+                        pths = compute_path_dsjctn(net, equipment, rqs, dsj)
+                    except DisjunctionError:
+                        tags['group-refused'] = 1
+                        pths = None
+                    except Exception as exc:  # noqa
+                        viol.append(dict(fingerprint=f'group-route-computation-raised:{type(exc).__name__}',
+                                         what=f'{src}->{dst} disjoint pair {[(ia, ha), (ib, hb)]}: {exc}'))
+                        pths = None
+                    if pths is not None:
+                        for rq, pth in zip(rqs, pths):
+                            inc, hop = (ia, ha) if rq.request_id == 'b1' else (ib, hb)
+                            uids = [e.uid for e in pth]
+                            if pth and hop == 'STRICT' and not rg.contains_in_order(uids, list(inc)):
+                                viol.append(dict(fingerprint='group-strict-include-ignored',
+                                                 what=f'{src}->{dst} request {rq.request_id} of the disjoint pair '
+                                                      f'{[(list(ia), ha), (list(ib), hb)]} on graph {case["edges"]} ({case["lengths"]}, '
+                                                      f'{case["style"]}): route {[u for u in uids if u.startswith("roadm")]} does not '
+                                                      f'cross STRICT {list(inc)}'))
+                            elif pth:
+                                probs = rg.valid_path(net, pth, src, dst)
+                                if probs:
+                                    viol.append(dict(fingerprint='invalid-route', what=f'{src}->{dst} disjoint pair: {probs[0]}'))
+                                else:
+                                    tags['group-routed'] = 1
                 if len(viol) > 12:
                     break
             tags['batches'] = 1
@@ -346,5 +383,6 @@ def main(rep, tier, seed):
                        'enumeration of all simple paths. Non-trivial: the include list changes the route, blocks it or is relaxed. '
                        'Jointly unsatisfiable mixed LOOSE/STRICT lists are unjudged (the statement does not say which rule wins).')
     rep.assumptions += ['fibre length is the route metric; the 0.01 m weight of non-fibre edges is covered by a 0.01 m x hops slack']
-    for k in ('blocked', 'relaxed', 'constraint-changes-route', 'strict-unknown-rejected', 'batches', 'long-explicit-route'):
+    for k in ('blocked', 'relaxed', 'constraint-changes-route', 'strict-unknown-rejected', 'batches', 'long-explicit-route',
+              'group-refused', 'group-routed'):
         rep.require(rep.tags.get(k, 0) >= 1, f'{k} never observed')
